@@ -284,6 +284,27 @@ def run(ctx, rep):
                                 rep.ok("C13.5", cons, "wrapped in int()", loc)
                             elif isinstance(p, ast.Call) and isinstance(p.func, ast.Name) and p.func.id in ("range",) or isinstance(p, (ast.BinOp, ast.Compare)):
                                 rep.violation("C13.5", cons, f"`{ast.unparse(p)}` uses Register.size as an integer, but the size of a register declared `register q[n]` is the Constant n (see Register.size): TypeError for every circuit with a let-sized register", loc, witness="let n 2\nregister q[n]\nfoo q[1]")
+    # resolve_size() of a fundamental register (or a whole alias of one) returns the size as declared -- possibly a
+    # Constant: range()/arithmetic on its result needs int() as well (through a local name too)
+    for fi_q in sorted(done_funcs):
+        fi = ix.functions[fi_q]
+        sized = {}
+        for st in iter_stmts(fi.body):
+            if isinstance(st, ast.Assign) and len(st.targets) == 1 and isinstance(st.targets[0], ast.Name):
+                v = st.value
+                raw = isinstance(v, ast.Call) and isinstance(v.func, ast.Attribute) and v.func.attr == "resolve_size"
+                conv = isinstance(v, ast.Call) and isinstance(v.func, ast.Name) and v.func.id == "int" and v.args and isinstance(v.args[0], ast.Call) and isinstance(v.args[0].func, ast.Attribute) and v.args[0].func.attr == "resolve_size"
+                if raw or conv:
+                    sized[st.targets[0].id] = (st, conv)
+        for name, (st, conv) in sized.items():
+            used_as_int = any(isinstance(n, ast.Call) and isinstance(n.func, ast.Name) and n.func.id == "range" and any(isinstance(a, ast.Name) and a.id == name for a in n.args) for n in walk_no_nested(fi.node))
+            if not used_as_int:
+                continue
+            cons = construct_of(fi, f"size-as-int:{name}=resolve_size()")
+            if conv:
+                rep.ok("C13.5", cons, "int(resolve_size()) before range()", f"{fi.path}:{st.lineno}")
+            else:
+                rep.violation("C13.5", cons, f"`{ast.unparse(st)}` then `range({name})`: for `let n 4; register r[n]; map a r; Foo a` resolve_size() returns the Constant n and range() raises TypeError", f"{fi.path}:{st.lineno}", witness="let n 4\nregister r[n]\nmap a r\nFoo a")
     # the same for the register iteration protocol used by DiscoverSubcircuits
     reg_iter = ix.find_method(REGISTER, "__iter__")
     if reg_iter is not None:
